@@ -164,13 +164,14 @@ package sender
 // read through a cursor ghost.fpos[f]. staticFile(f) is the hypothesis of
 // C01/C02 that the file is not modified and reads do not fail during the
 // session (a static source tree).
-//@ ghost fpos: ObjIntArray
+//@ ghost fpos: ObjIntArray owned
 //@ spec func fsize(f: int): int
 //@ spec func fbyte(f: int, i: int): int
 //@ spec func staticFile(f: int): bool
 // Representation invariant of the sliding read window.
 //@ spec func winOK(ms: *sender.mapStruct): bool = 0 <= ms.pOffset && 0 <= ms.pLen && ms.pLen <= len(ms.window) && ms.pSize == len(ms.window) && mod(ms.pOffset, 1024) == 0 && ms.fileSize == fsize(data(ms.f)) && ms.pOffset + ms.pLen <= ms.fileSize && ms.fileSize <= 4611686018427387904 && ms.defWindowSize >= 1024 && ms.defWindowSize <= 4294967296 && mod(ms.defWindowSize, 1024) == 0 && ms.pFdOffset == select(ghost.fpos, data(ms.f)) && (forall k :: 0 <= k && k < ms.pLen ==> ms.window[k] == fbyte(data(ms.f), ms.pOffset + k))
 //@ func (*sender.mapStruct).ptr
+//@   modifies sender.mapStruct.pOffset, sender.mapStruct.pFdOffset, sender.mapStruct.window, sender.mapStruct.pSize, sender.mapStruct.pLen, sender.mapStruct.err, E:byte, ghost.fpos
 //@   requires[C02] [window-invariant] winOK(ms)
 //@   requires[C02] [range-in-file] 0 <= offset && offset + l <= ms.fileSize
 //@   ensures[C02] [window-invariant] err == nil ==> winOK(ms)
@@ -181,9 +182,41 @@ package sender
 //@   loop[C02] 0: invariant [read-progress] 0 <= readOffset && 0 <= readSize && readOffset + readSize == ms.pLen && ms.pLen <= len(ms.window) && ms.pFdOffset == ms.pOffset + readOffset && ms.pFdOffset == select(ghost.fpos, data(ms.f)) && ms.pOffset + ms.pLen <= ms.fileSize
 //@   loop[C02] 0: invariant [window-prefix-read] forall k :: 0 <= k && k < readOffset ==> ms.window[k] == fbyte(data(ms.f), ms.pOffset + k)
 //@   loop[C02] 0: invariant [fields-stable] ms.f == old(ms.f) && ms.fileSize == old(ms.fileSize) && ms.fileSize == fsize(data(ms.f)) && ms.pSize == len(ms.window) && mod(ms.pOffset, 1024) == 0 && ms.pOffset == offset - mod(offset, 1024) && ms.defWindowSize == old(ms.defWindowSize) && 0 <= ms.pOffset
+// simpleSendToken emits the literal run [offset, offset+n) of the source file
+// as consecutive chunks, each announced by its positive length, and then the
+// (negative) block token.
 //@ func (*sender.Transfer).simpleSendToken
-//@   at[C17] (io.Writer).Write: assert [chunk-within-frame-limit] len(arg0) <= 262144
-//@   loop 0: invariant [literal-progress] 0 <= l && l <= n
+//@   modifies sender.mapStruct.pOffset, sender.mapStruct.pFdOffset, sender.mapStruct.window, sender.mapStruct.pSize, sender.mapStruct.pLen, sender.mapStruct.err, E:byte, ghost.fpos, rsyncwire.CountingWriter.BytesWritten, ghost.acc, ghost.int32sWritten
+//@   requires[C02] [window-invariant] winOK(ms)
+//@   requires[C02] [run-in-file] 0 <= offset && 0 <= n && offset + n <= ms.fileSize
+//@   loop[C02] 0: invariant [literal-progress] 0 <= l && l <= n && winOK(ms) && ms.f == old(ms.f) && ms.fileSize == old(ms.fileSize)
+//@   at[C02] (*rsyncwire.Conn).WriteInt32@1: assert [chunk-length-announced] arg1 == min(chunkSize, n - l) && arg1 > 0
+//@   at[C02] (io.Writer).Write: assert [literal-is-file-range] len(arg0) == min(chunkSize, n - l) && (forall k :: 0 <= k && k < len(arg0) ==> arg0[k] == fbyte(data(ms.f), offset + l + k))
+//@   at[C02] (*rsyncwire.Conn).WriteInt32@2: assert [token-encoding] arg1 == -(token + 1)
+//@   ensures[C02] [window-invariant] err == nil ==> winOK(ms) && ms.f == old(ms.f) && ms.fileSize == old(ms.fileSize)
+//@   ensures[C02] [last-match-untouched] st.lastMatch == old(st.lastMatch)
+
+//@ func (*sender.Transfer).sendToken
+//@   modifies sender.mapStruct.pOffset, sender.mapStruct.pFdOffset, sender.mapStruct.window, sender.mapStruct.pSize, sender.mapStruct.pLen, sender.mapStruct.err, E:byte, ghost.fpos, rsyncwire.CountingWriter.BytesWritten, ghost.acc, ghost.int32sWritten
+//@   requires[C02] [window-invariant] winOK(ms)
+//@   requires[C02] [run-in-file] 0 <= offset && 0 <= n && offset + n <= ms.fileSize
+//@   at[C02] (*sender.Transfer).simpleSendToken: assert [same-run-and-token] arg1 == ms && arg2 == i && arg3 == offset && arg4 == n
+//@   ensures[C02] [window-invariant] err == nil ==> winOK(ms) && ms.f == old(ms.f) && ms.fileSize == old(ms.fileSize)
+//@   ensures[C02] [last-match-untouched] st.lastMatch == old(st.lastMatch)
+
+// matched sends the literal run since the last match and the token for block
+// i (or flushes, i < 0), then feeds the same source bytes, in file order, to
+// the whole-file hash, and advances lastMatch past them.
+//@ func (*sender.Transfer).matched
+//@   modifies sender.mapStruct.pOffset, sender.mapStruct.pFdOffset, sender.mapStruct.window, sender.mapStruct.pSize, sender.mapStruct.pLen, sender.mapStruct.err, E:byte, ghost.fpos, rsyncwire.CountingWriter.BytesWritten, ghost.acc, ghost.int32sWritten, sender.Transfer.lastMatch, sender.Transfer.Progress, E:progress.progressAt
+//@   requires[C02] [window-invariant] winOK(ms)
+//@   requires[C02] [range] 0 <= st.lastMatch && st.lastMatch <= offset && offset <= ms.fileSize
+//@   requires[C02] [block-in-file] i >= 0 ==> i < len(head.Sums) && 0 <= head.Sums[i].Len && offset + head.Sums[i].Len <= ms.fileSize
+//@   at[C02] (*sender.Transfer).sendToken: assert [literal-run-since-last-match] arg2 == i && arg3 == st.lastMatch && arg4 == offset - st.lastMatch
+//@   loop[C02] 0: invariant [hash-progress] 0 <= j && winOK(ms) && ms.f == old(ms.f) && ms.fileSize == old(ms.fileSize) && st.lastMatch == old(st.lastMatch) && mod(j, chunkSize) == 0 && 0 <= n && st.lastMatch + n == offset + ite(i >= 0, head.Sums[i].Len, 0) && st.lastMatch + n <= ms.fileSize
+//@   at[C02] (hash.Hash).Write: assert [hash-sees-file-range] len(arg0) == min(chunkSize, n - j) && (forall k :: 0 <= k && k < len(arg0) ==> arg0[k] == fbyte(data(ms.f), st.lastMatch + j + k))
+//@   ensures[C02] [last-match-advances] err == nil ==> st.lastMatch == ite(i >= 0, offset + old(head.Sums[i].Len), offset)
+//@   ensures[C02] [window-invariant] err == nil ==> winOK(ms) && ms.f == old(ms.f) && ms.fileSize == old(ms.fileSize)
 //@ func (*sender.Transfer).sendFile
 //@   at[C17] (io.Writer).Write: assert [chunk-within-frame-limit] len(arg0) <= 262144
 //@ func (*sender.Transfer).hashSearch
